@@ -175,10 +175,12 @@ def do_expectation_value(ctx, rng, i):
 
 
 def do_variance(ctx, rng, i):
-    H, ref, sites, kind, terms, strengths = make_mpo(rng, hermitian=True)
+    herm = bool(rng.random() < 0.5)  # (non-Hermitian MPOs: <O^2> - <O>^2 with a complex <O>)
+    H, ref, sites, kind, terms, strengths = make_mpo(rng, hermitian=herm)
     psi, vec, qt = rand_state(rng, sites)
     case = case_of(kind, len(sites), terms, strengths)
     ctx.count('op.variance')
+    ctx.count('op.variance.hermitian' if herm else 'op.variance.general')
     v = vec.reshape(-1)
     got = H.variance(psi)
     e = np.vdot(v, ref @ v)
@@ -689,4 +691,40 @@ def do_infinite(ctx, rng, i):
         except Exception as e:
             tb = traceback.format_exc()
             ctx.violation('infinite.overlap:default-window:raises-%s' % type(e).__name__, tb[-500:], case)
+    # is_hermitian / is_equal with an explicit max_range on an MPO of unknown range: a Hermitian operator plus one term that is longer
+    # than the default window of 3 L sites.  Documented: is_hermitian(eps, m) == is_equal(dagger(), eps, m), and is_equal compares the
+    # windows of L + 2 m sites through overlap(num_sites=L + 2 m) (itself judged against dense windows above)
+    try:
+        r_far = 3 * L + 1
+        far = [(C8.opnames(sites[0], rng, 'bosonic'), 0), (C8.opnames(sites[r_far % L], rng, 'bosonic'), r_far)]
+        if not np.any(chinfo.make_valid(sum(sites[k % L].get_op(n).qtotal for n, k in far))):
+            hc_terms = [[(sites[p_ % L].get_hc_op_name(n_), p_) for n_, p_ in t] for t in terms]
+            Hh = MPOGraph.from_term_list(TermList(terms + hc_terms + [far], list(strengths) + list(strengths) + [0.75]), sites,
+                                         bc='infinite').build_MPO()
+            Hh = MPO(Hh.sites, [Hh.get_W(k_).copy() for k_ in range(L)], bc='infinite', IdL=Hh.IdL, IdR=Hh.IdR, max_range=None)
+            Hd = Hh.dagger()
+            ctx.count('infinite.is_hermitian_with_max_range')
+            res = {}
+            for m in (None, r_far):
+                got_h = bool(Hh.is_hermitian(1e-10, m))
+                got_e = bool(Hh.is_equal(Hd, 1e-10, m))
+                n_s = L + 2 * (m if m is not None else L)
+                ov = Hh.overlap(Hd, understood_infinite=True, num_sites=n_s)
+                sn = Hh.overlap(Hh, understood_infinite=True, num_sites=n_s)
+                on = Hd.overlap(Hd, understood_infinite=True, num_sites=n_s)
+                dist, scale_ = abs(sn - 2 * np.real(ov) + on), abs(sn + on)
+                res[m] = got_h
+                if got_h != got_e:
+                    ctx.violation('infinite.is_hermitian:differs-from-is_equal(dagger)', 'max_range=%r: is_hermitian %r, is_equal(dagger) %r' %
+                                  (m, got_h, got_e), dict(case, far=far))
+                if (dist <= 1e-12 * scale_ or dist >= 1e-8 * scale_) and got_e != bool(dist <= 1e-10 * scale_):
+                    ctx.violation('infinite.is_equal:differs-from-window-overlaps', 'max_range=%r: is_equal %r, windows of %d sites: '
+                                  'distance^2 %g of %g' % (m, got_e, n_s, dist, scale_), dict(case, far=far))
+            if res[None] != res[r_far]:
+                ctx.count('infinite.is_hermitian.window_decides')
+    except Exception as e:
+        tb = traceback.format_exc()
+        if '/tenpy/' not in tb:
+            raise
+        ctx.violation('infinite.is_hermitian:raises-%s' % type(e).__name__, tb[-500:], case)
     ctx.sig(('infinite', kind, L, repr(terms)), nontrivial=True)
